@@ -204,6 +204,58 @@ func undoGlobals() {
 		*undoLog[i].addr = undoLog[i].old
 	}
 	undoLog = undoLog[:0]
+	for _, c := range poolFrozen {
+		delete(frozenCells, c)
+	}
+	poolFrozen = poolFrozen[:0]
+	for k := range poolItems {
+		delete(poolItems, k)
+	}
+}
+
+// sync.Pool model state (per path)
+var poolItems = map[*value][]value{}
+var poolFrozen []*value
+
+// freezeMore marks the memory reachable from v as package-level state for the rest of the path.
+func freezeMore(v value, name string) {
+	var walk func(v value, depth int)
+	cell := func(c *value, depth int) {
+		if c == nil {
+			return
+		}
+		if _, ok := frozenCells[c]; ok {
+			return
+		}
+		frozenCells[c] = name
+		poolFrozen = append(poolFrozen, c)
+		walk(*c, depth+1)
+	}
+	walk = func(v value, depth int) {
+		if depth > 12 {
+			return
+		}
+		switch v := v.(type) {
+		case *value:
+			cell(v, depth)
+		case []value:
+			full := v[:cap(v)]
+			for i := range full {
+				cell(&full[i], depth)
+			}
+		case array:
+			for i := range v {
+				cell(&v[i], depth)
+			}
+		case structure:
+			for i := range v {
+				cell(&v[i], depth)
+			}
+		case iface:
+			walk(v.v, depth+1)
+		}
+	}
+	walk(v, 0)
 }
 
 func noteFunc(fn *ssa.Function) {
@@ -682,7 +734,11 @@ func vNodesWalk(root iface, wantIfaces, wantPtrs, skip map[string]bool) []value 
 			if !ok {
 				return
 			}
+			tn := typeName(t)
 			for i := 0; i < tt.NumFields(); i++ {
+				if skip[tn+"."+tt.Field(i).Name()] {
+					continue
+				}
 				walk(st[i], tt.Field(i).Type(), depth+1)
 			}
 		case *types.Slice:
